@@ -209,7 +209,10 @@ def unit_g12s(ctx):
         else:
             tp = Tape(tape, kind)
             r, priv, pub = S.keypair(tp.addr, 0)
-        ctx.digest(r, priv if r == 0 else b"", pub if r == 0 else b"")
+        if kind == "brng":
+            ctx.digest(r)   # brngCTR mixes the prior (scratch / fill) content of its output buffer in: values are not comparable across fills and configurations
+        else:
+            ctx.digest(r, priv if r == 0 else b"", pub if r == 0 else b"")
         want = G.enc_pub(P, G.pubkey(P, d))
         det = {"params": S.name, "tape": tape, "ret": errname(r), "privkey": priv, "pubkey": pub,
                "want_priv": d.to_bytes(mo, "little"), "want_pub": want}
@@ -284,7 +287,10 @@ def unit_g12s(ctx):
             if redo and tk != "s=0-forced":
                 mark(ctx, "sign:r=0-retry")
         rv = S.verify(h, sig, pubb) if r == 0 else None
-        ctx.digest(r, sig if r == 0 else b"", rv)
+        if tk == "brng":
+            ctx.digest(r)   # brngCTR mixes the prior (scratch / fill) content of its output buffer in: values are not comparable across fills and configurations
+        else:
+            ctx.digest(r, sig if r == 0 else b"", rv)
         det = {"params": S.name, "d": d, "hash": h, "tape": tape, "ret": errname(r), "sig": sig, "want": want,
                "verify": None if rv is None else errname(rv)}
         if r != 0:
@@ -507,7 +513,10 @@ def unit_bign96(ctx):
             r2 = lib.bign96PubkeyVal(params(), pub)
             pub2 = lib.alloc(48)
             r3 = lib.bign96PubkeyCalc(pub2, params(), priv)
-            ctx.digest(r, pv, pb, r1, r2, r3, lib.rd(pub2, 48) if r3 == 0 else b"")
+            if kind == "brng":
+                ctx.digest(r)   # brngCTR mixes the prior (scratch / fill) content of its output buffer in: values are not comparable across fills and configurations
+            else:
+                ctx.digest(r, pv, pb, r1, r2, r3, lib.rd(pub2, 48) if r3 == 0 else b"")
             if r1 != 0 or r2 != 0:
                 ctx.violation("bign96KeypairGen:invalid-pair:%s" % kind, "generated pair fails bign96KeypairVal/PubkeyVal (%s, %s)" % (errname(r1), errname(r2)), det)
             if pv != blk(d):
@@ -564,7 +573,10 @@ def unit_bign96(ctx):
             want = None
         sg = lib.rd(sig, 34)
         rv = verify(h, sg, pubb) if r == 0 else None
-        ctx.digest(r, sg if r == 0 else b"", rv)
+        if tk == "brng":
+            ctx.digest(r)   # brngCTR mixes the prior (scratch / fill) content of its output buffer in: values are not comparable across fills and configurations
+        else:
+            ctx.digest(r, sg if r == 0 else b"", rv)
         det = {"fn": fn, "d": d, "hash": h, "tape": tape, "t": t, "ret": errname(r), "sig": sg, "want": want,
                "verify": None if rv is None else errname(rv)}
         if r != 0:
@@ -773,7 +785,10 @@ def unit_dstu(ctx):
             r, priv, pub = S.keypair(tp.addr, 0)
         want = D.enc_pt(P, D.pubkey(P, d))
         rv = lib.dstuPointVal(S.params(), lib.mk(pub)) if r == 0 else None
-        ctx.digest(r, priv if r == 0 else b"", pub if r == 0 else b"", rv)
+        if kind == "brng":
+            ctx.digest(r)   # brngCTR mixes the prior (scratch / fill) content of its output buffer in: values are not comparable across fills and configurations
+        else:
+            ctx.digest(r, priv if r == 0 else b"", pub if r == 0 else b"", rv)
         det = {"params": S.name, "base": ptb, "tape": tape, "ret": errname(r), "privkey": priv, "pubkey": pub,
                "want_priv": d.to_bytes(P.order_no, "little"), "want_pub": want}
         if r != 0:
@@ -890,7 +905,10 @@ def unit_dstu(ctx):
                 raise Harness("model: verify(sign) fails")
             mark(ctx, "sign:model-checked")
         rv = S.verify(ld, h, sig, pubb) if r == 0 else None
-        ctx.digest(r, sig if r == 0 else b"", rv)
+        if tk == "brng":
+            ctx.digest(r)   # brngCTR mixes the prior (scratch / fill) content of its output buffer in: values are not comparable across fills and configurations
+        else:
+            ctx.digest(r, sig if r == 0 else b"", rv)
         det = {"params": S.name, "base": ptb, "d": d, "hash": h, "ld": ld, "tape": tape, "ret": errname(r), "sig": sig, "want": want,
                "verify": None if rv is None else errname(rv)}
         if r != 0:
@@ -1012,7 +1030,10 @@ def unit_pfok(ctx):
             rv = lib.pfokPubkeyVal(params(), pub)
             pub2 = lib.alloc(no)
             rc = lib.pfokPubkeyCalc(pub2, params(), priv)
-            ctx.digest(r, pv, pb, rv, rc, lib.rd(pub2, no) if rc == 0 else b"")
+            if kind == "brng":
+                ctx.digest(r)   # brngCTR mixes the prior (scratch / fill) content of its output buffer in: values are not comparable across fills and configurations
+            else:
+                ctx.digest(r, pv, pb, rv, rc, lib.rd(pub2, no) if rc == 0 else b"")
             if pv != enc_x(x):
                 ctx.violation("pfokKeypairGen:value:privkey:%s" % kind, "private key is not the r low bits of the generator output", det)
             elif pb != want:
